@@ -59,11 +59,12 @@ Steps(s, t) ==
          ELSE IF ClosedS(c) THEN {Done(s, t, -1)}
          ELSE IF FullC(c) THEN {}
          ELSE {[s EXCEPT !.ch[o].resv = @ + 1, !.st[t+1] = "queued"]}
-    [] k = "try_send" ->
+    [] k = "try_send" ->     \* the same two steps; the first one never waits
          LET c == s.ch[o] IN
-         (IF ClosedS(c) THEN {Done(s, t, -1)} ELSE {})
-         \cup (IF FullC(c) THEN {Done(s, t, -2)} ELSE {})
-         \cup (IF ~ClosedS(c) /\ ~FullC(c) THEN {Done([s EXCEPT !.ch[o].buf = Append(@, v)], t, 0)} ELSE {})
+         IF q THEN {Done([s EXCEPT !.ch[o].resv = @ - 1, !.ch[o].buf = IF c.rx THEN Append(@, v) ELSE @], t, 0)}
+         ELSE (IF ClosedS(c) THEN {Done(s, t, -1)} ELSE {})
+              \cup (IF FullC(c) THEN {Done(s, t, -2)} ELSE {})
+              \cup (IF ~ClosedS(c) /\ ~FullC(c) THEN {[s EXCEPT !.ch[o].resv = @ + 1, !.st[t+1] = "queued"]} ELSE {})
     [] k = "cap" ->
          LET c == s.ch[o] IN
          IF ClosedS(c) THEN {Done(s, t, r) : r \in 0..(IF c.cap >= 0 THEN c.cap ELSE 0)}
